@@ -567,11 +567,11 @@ func (w *world) exec(op string) (res string) {
 
 func (w *world) run(t *trace.W, op string) {
 	if w.srv != nil {
-		w.srv.MustLead()
+		w.srv.MustLead(true)
 	}
 	res := w.exec(op)
 	if w.srv != nil {
-		w.srv.MustLead()
+		w.srv.MustLead(true)
 	}
 	if res == "bad-op" || w.srv == nil {
 		t.Line(op, res)
